@@ -8,6 +8,7 @@ import json
 from .. import adapters, engine
 from ..ref import tokens as tk
 from ..universe import gen_steps
+from ..universe import schemas as schemas_mod
 from . import c01, common
 
 PROPERTY_ID = "C05"
@@ -57,6 +58,8 @@ def units(tier, seed):
         specs.extend(extra)
     out = common.doc_units(PROPERTY_ID, specs, per_scope_blocks=8 if q else 16)
     out.append({"kind": "registry", "name": "registry"})
+    for tag in ("1", "2"):
+        out.append({"kind": "pairmix", "tag": tag, "size": 4 if q else 5, "name": f"pairmix/{tag}"})
     return out
 
 
@@ -165,6 +168,7 @@ def check_doc(c, d, res, pool, doc_pool, u):
     # steps: all eight types on this document
     T = tk.doc_tokens(model, d)
     small_pool = pool[: (25 if u.get("quick") else 60)]
+    seen_results = set()
     for sd in _steps(c, d, T, small_pool):
         engine.kick()
         res.transitions += 1
@@ -186,6 +190,15 @@ def check_doc(c, d, res, pool, doc_pool, u):
         # identical effect and map on every document of the pool
         if list(y.get_map().ranges) != list(step.get_map().ranges) or y.get_map().inverted != step.get_map().inverted:
             res.violate("c05.step.map-differs", case, list(y.get_map().ranges), list(step.get_map().ranges), size=size)
+        # the document the step produces was built through the API (add_to_set, replace, ...), not decoded from
+        # JSON: it must survive the round trip as well
+        o0 = c01.apply_outcome(step, node)
+        if o0[0] == "doc":
+            k0 = jkey(o0[1].to_json())
+            if k0 not in seen_results:
+                seen_results.add(k0)
+                check_obj("node", o0[1], lambda j: adapters.Node.from_json(schema, j), lambda a, b: a.eq(b), res,
+                          {**case, "of": "step result"}, size)
         for dj, dn in doc_pool:
             o1 = c01.apply_outcome(step, dn)
             o2 = c01.apply_outcome(y, dn)
@@ -263,7 +276,103 @@ def check_registry(res):
     res.sample({"registry": got})
 
 
+def belongs(schema, obj, path="x"):
+    """None, or where `obj` (Node / Fragment / Slice / Mark / Step) refers to a type of ANOTHER Schema instance."""
+    if obj is None:
+        return None
+    if isinstance(obj, adapters.Mark):
+        return None if schema.marks.get(obj.type.name) is obj.type else f"{path}: mark type {obj.type.name}"
+    if isinstance(obj, adapters.Node):
+        if schema.nodes.get(obj.type.name) is not obj.type:
+            return f"{path}: node type {obj.type.name}"
+        for m in obj.marks:
+            w = belongs(schema, m, path + ".marks")
+            if w:
+                return w
+        return belongs(schema, obj.content, path + "/" + obj.type.name)
+    if isinstance(obj, adapters.Fragment):
+        for i in range(obj.child_count):
+            w = belongs(schema, obj.child(i), f"{path}[{i}]")
+            if w:
+                return w
+        return None
+    if isinstance(obj, adapters.Slice):
+        return belongs(schema, obj.content, path + ".slice")
+    for attr in ("mark", "slice"):
+        if hasattr(obj, attr):
+            w = belongs(schema, getattr(obj, attr), path + "." + attr)
+            if w:
+                return w
+    return None
+
+
+def run_pairmix(u):
+    """Isolation between Schema instances: the two members of a pair (same names, same JSON, different meaning) decode
+    the SAME JSON value directly one after the other, in both orders; whatever is decoded under a schema must consist
+    of that schema's types only and act exactly like the object built under that schema."""
+    res = engine.UnitResult(PROPERTY_ID)
+    tag = u["tag"]
+    cs = [adapters.ctx(f"pair{k}{tag}") for k in schemas_mod.PAIR_ORDERS[tag]]
+    scoped = []
+    for c in cs:
+        _, sc, docs = common.scope_docs(c.id, "pair", u["size"])
+        scoped.append({jkey(d): d for d in docs})
+    shared = [d for k, d in scoped[0].items() if k in scoped[1]]
+    if u.get("only_doc") is not None:
+        shared = [u["only_doc"]]
+    pool = [s for s in common.pool_slices(cs[0].id, "pair", 3) if s in common.pool_slices(cs[1].id, "pair", 3)][:25]
+    engine.arm()
+    for d in shared:
+        res.states += 1
+        T = tk.doc_tokens(cs[0].model, d)
+        size = len(T)
+        for first, second in ((0, 1), (1, 0)):
+            ca, cb = cs[first], cs[second]
+            base = {"pairmix": tag, "order": [ca.id, cb.id], "doc": d}
+            engine.kick(20)
+            try:
+                na = adapters.Node.from_json(ca.schema, d)
+                nb = adapters.Node.from_json(cb.schema, d)
+            except Exception as e:  # noqa: BLE001
+                res.violate("c05.pair.node.from_json", base, common.exc_str(e), size=size)
+                continue
+            res.transitions += 2
+            for c, n in ((ca, na), (cb, nb)):
+                w = belongs(c.schema, n)
+                if w:
+                    res.violate("c05.pair.node.foreign-type", {**base, "under": c.id}, w, size=size)
+            for sd in _steps(ca, d, T, pool):
+                case = {**base, "step": sd}
+                try:
+                    sa = adapters.build_step(ca, sd)
+                    sb = adapters.build_step(cb, sd)
+                    j = sa.to_json()
+                    ya = adapters.Step.from_json(ca.schema, j)
+                    yb = adapters.Step.from_json(cb.schema, json.loads(json.dumps(j)))
+                except Exception as e:  # noqa: BLE001
+                    res.violate("c05.pair.step.raises", case, common.exc_str(e),
+                                fingerprint="c05.pair.step.raises:" + common.exc_fp(e), size=size)
+                    continue
+                res.transitions += 2
+                for c, y, s0, n in ((ca, ya, sa, na), (cb, yb, sb, nb)):
+                    w = belongs(c.schema, y)
+                    if w:
+                        res.violate("c05.pair.step.foreign-type", {**case, "under": c.id}, w, size=size)
+                        continue
+                    o1 = c01.apply_outcome(s0, n)
+                    o2 = c01.apply_outcome(y, n)
+                    res.validated += 1
+                    if not (o1[0] == o2[0] and (o1[0] != "doc" or jkey(o1[1].to_json()) == jkey(o2[1].to_json()))):
+                        res.violate("c05.pair.step.effect-differs", {**case, "under": c.id}, [o1[0], o2[0]], size=size)
+    engine.disarm()
+    res.scopes.append({"unit": u["name"], "shared_docs": len(shared), "slices": len(pool), "completed": True})
+    res.evaluations = res.transitions
+    return res
+
+
 def run_unit(u):
+    if u.get("kind") == "pairmix":
+        return run_pairmix(u)
     res = engine.UnitResult(PROPERTY_ID)
     engine.arm()
     if u.get("kind") == "registry":
@@ -313,6 +422,8 @@ def _empty_textblocks(c, sc):
 
 
 def replay(case):
+    if case.get("pairmix"):
+        return run_pairmix({"tag": case["pairmix"], "size": 4, "only_doc": case["doc"], "name": "replay"}).violations
     res = engine.UnitResult(PROPERTY_ID)
     if "id" in case or "json" in case:
         check_registry(res)
